@@ -398,3 +398,95 @@ func runC13StartAtBoundary(cases []string, out *bufio.Writer, _ []string) {
 		fmt.Fprintf(out, "%d %d %d %s\n", starts, straddles, wrong, strings.Join(first, ","))
 	}
 }
+
+func init() { families["c19l"] = runC19LongInterval }
+
+// A rotation interval of hours to days whose next boundary happens to be a few seconds away (intervals count from the zero time, so
+// such an interval is found by search), and a directory outage across that boundary. Case: "<writers>"
+// Observation: "<lines written> <lines found in the directory afterwards> <interval> <notes: panic(..) / writers-blocked>"
+func runC19LongInterval(cases []string, out *bufio.Writer, _ []string) {
+	base, _ := os.MkdirTemp("/var/tmp", "verif-c19l-")
+	defer os.RemoveAll(base)
+	for n, line := range cases {
+		nw, _ := strconv.Atoi(strings.Fields(line)[0])
+		// the boundary: 3..8 s from now, at a second that has a divisor between 2 h and 14 d
+		const zeroToUnix = 62135596800
+		var interval time.Duration
+		var boundary time.Time
+		for ahead := int64(3); ahead < 9 && interval == 0; ahead++ {
+			ts := time.Now().Unix() + ahead + zeroToUnix
+			for d := int64(7200 + 37*int64(n)); d < 14*86400; d++ {
+				if ts%d == 0 {
+					interval, boundary = time.Duration(d)*time.Second, time.Unix(ts-zeroToUnix, 0)
+					break
+				}
+			}
+		}
+		if interval == 0 {
+			fmt.Fprintln(out, "0 0 - no-interval-found")
+			continue
+		}
+		dir := filepath.Join(base, strconv.Itoa(n))
+		os.MkdirAll(dir, 0755)
+		away := dir + ".away"
+		a := &log.RollingFileAppender{FileDir: dir, FileName: "app.log", Rotation: log.TimeRotation{Interval: interval}, MaxAge: 24, Layout: &log.TextLayout{}}
+		if err := a.Start(); err != nil {
+			fmt.Fprintln(out, "0 0 - start-error")
+			continue
+		}
+		end := boundary.Add(2500 * time.Millisecond)
+		var mu sync.Mutex
+		var notes []string
+		written := 0
+		var wwg sync.WaitGroup
+		for w := 0; w < nw; w++ {
+			wwg.Add(1)
+			go func(w int) {
+				defer wwg.Done()
+				for k := 0; time.Now().Before(end); k++ {
+					id := fmt.Sprintf("%d.%d", w, k)
+					if p, v := guard(func() { a.Write(mkLine(id, 20)) }); p {
+						mu.Lock()
+						notes = append(notes, fmt.Sprintf("panic(%v)", strings.ReplaceAll(fmt.Sprint(v), " ", "_")))
+						mu.Unlock()
+						return
+					}
+					mu.Lock()
+					written++
+					mu.Unlock()
+					time.Sleep(15 * time.Millisecond)
+				}
+			}(w)
+		}
+		go func() { // the directory is away from 1.5 s before the boundary to 1 s after it
+			time.Sleep(time.Until(boundary.Add(-1500 * time.Millisecond)))
+			os.Rename(dir, away)
+			time.Sleep(2500 * time.Millisecond)
+			os.Rename(away, dir)
+		}()
+		wdone := make(chan struct{})
+		go func() { wwg.Wait(); close(wdone) }()
+		if !waitSignal(wdone, time.Until(end)+15*time.Second) {
+			notes = append(notes, "writers-blocked")
+		}
+		guard(func() { a.Stop() })
+		time.Sleep(100 * time.Millisecond)
+		if _, err := os.Stat(away); err == nil {
+			os.Rename(away, dir)
+		}
+		found := 0
+		ents, _ := os.ReadDir(dir)
+		for _, e := range ents {
+			b, _ := os.ReadFile(filepath.Join(dir, e.Name()))
+			for _, l := range bytes.Split(b, []byte("\n")) {
+				if len(l) > 0 && idOf(l) != "?" && lineOK(append(l, '\n')) {
+					found++
+				}
+			}
+		}
+		mu.Lock()
+		fmt.Fprintf(out, "%d %d %s %s\n", written, found, interval, strings.Join(notes, ","))
+		mu.Unlock()
+		os.RemoveAll(dir)
+	}
+}
